@@ -74,4 +74,50 @@ def closerOK (signer owner : Addr) (isAdmin : Bool) : Bool := signer == owner ||
 def openTakesOK (traderBefore traderAfter clpBefore clpAfter collAmt : Nat) : Bool :=
   traderAfter + collAmt == traderBefore && clpAfter == clpBefore + collAmt
 
+/-! ### histories -/
+
+/-- what the environment may change between margin operations: parameters and roles (administrator
+    messages of margin, clp, admin), every bank balance, the block height, and the two balance
+    fields of any pool (x/clp swaps, liquidity additions and removals).  Custody, liabilities,
+    positions and the counters are not in its reach. -/
+structure EnvChange where
+  params : Params
+  clp : ClpParams
+  admins : List Addr
+  whitelist : List Addr
+  bank : Bank
+  height : Int
+  bals : List (Asset × Nat × Nat)
+
+def applyBals : List (Asset × Nat × Nat) → State → State
+  | [], s => s
+  | (sym, n, e) :: r, s =>
+    applyBals r (match getPoolL s.pools sym with
+      | some p => s.setPool { p with nBal := n, eBal := e }
+      | none => s)
+
+inductive Op where
+  | msg (m : Msg)
+  | beginBlock (rates : Asset → Option Dec)
+  | env (e : EnvChange)
+
+/-- one step of a history.  A panic in BeginBlock halts the chain: nothing of that block is committed. -/
+def step (fx : Fixes) (s : State) : Op → State
+  | .msg m => deliver fx s m
+  | .beginBlock rates =>
+    match beginBlocker fx s rates with
+    | .ok s' => s'
+    | .error _ => s
+  | .env e =>
+    applyBals e.bals { s with params := e.params, clp := e.clp, admins := e.admins, whitelist := e.whitelist,
+                              bank := e.bank, height := e.height }
+
+def run (fx : Fixes) (s : State) (ops : List Op) : State := ops.foldl (step fx) s
+
+/-- number of Open messages in a history (each takes one id from the 64-bit counter) -/
+def opens : List Op → Nat
+  | [] => 0
+  | .msg (.open _) :: r => opens r + 1
+  | _ :: r => opens r
+
 end Sif.Spec.C13
